@@ -6,7 +6,7 @@ open Cherab.Drv Cherab.Caching
 /-!
 C14 driver.  Interactive line protocol (one reply per line):
 
-  fn <fid> <x..> <v>                       record f(x..) = v for function table <fid>            -> ok
+  fn <fid> <x..> <v|R>                     record f(x..) = v (R: f raises there) in table <fid>; may be overwritten -> ok
   new1 <id> <fid> mn mx dx nbe hasb lo hi       construct Caching1D model                        -> ok <top> <dom nodes> <xn nodes> | ValueError
   new2 <id> <fid> mnx mxx mny mxy dx dy nbe hasb lo hi                                           -> ok <topx> <topy> <domx> <domy> <xnx> <xny> | ValueError
   new3 <id> <fid> (6 bounds) dx dy dz nbe hasb lo hi                                             -> ok <topx> <topy> <topz> ... | ValueError
@@ -18,7 +18,7 @@ C14 driver.  Interactive line protocol (one reply per line):
   fi <top> <padding> <v> <x0..xtop>        find_index                                              -> <int>
 -/
 
-abbrev Tbl := Std.HashMap (Nat × List UInt64) Float
+abbrev Tbl := Std.HashMap (Nat × List UInt64) (Option Float)   -- `none`: the wrapped function raised there
 
 def truncF (x : Float) : Nat := x.floor.toUInt64.toNat
 def powF (x : Float) (n : Nat) : Float := Float.pow x n.toFloat
@@ -40,10 +40,10 @@ structure DS where
 def bitsOf (l : List Float) : List UInt64 := l.map Float.toBits
 
 /-- the recorded function; a coordinate that was never recorded yields NaN and is reported -/
-def fnOf (tbl : Tbl) (fid : Nat) (coords : List Float) : Float :=
+def fnOf (tbl : Tbl) (fid : Nat) (coords : List Float) : Option Float :=
   match tbl.get? (fid, bitsOf coords) with
   | some v => v
-  | none => nanF
+  | none => some nanF
 
 def known (tbl : Tbl) (fid : Nat) (coords : List Float) : Bool := (tbl.get? (fid, bitsOf coords)).isSome
 
@@ -79,6 +79,7 @@ def fmtOut (o : Out Float) (calls : List (List Float)) (tbl : Tbl) (fid : Nat) :
   | .val v => s!"val {fF v} {calls.length} {cs}".trimAscii.toString
   | .raise => s!"raise {calls.length} {cs}".trimAscii.toString
   | .error => s!"error {calls.length} {cs}".trimAscii.toString
+  | .fraise => s!"fraise {calls.length} {cs}".trimAscii.toString
 
 def axisLine (ax : Axis Float) : String :=
   let idx := List.range (ax.top + 1)
@@ -147,9 +148,9 @@ def dumpObj : Obj → String
 def step (s : DS) (ts : List String) : DS × String :=
   match ts with
   | "fn" :: fid :: rest =>
-    let vals := rest.map pF
-    let coords := vals.dropLast
-    ({ s with tbl := s.tbl.insert (pN fid, bitsOf coords) (vals.getLastD nanF) }, "ok")
+    let coords := rest.dropLast.map pF
+    let v : Option Float := if rest.getLastD "" == "R" then none else some (pF (rest.getLastD "0"))
+    ({ s with tbl := s.tbl.insert (pN fid, bitsOf coords) v }, "ok")
   | ["new1", id, fid, mn, mx, dx, nbe, hasb, lo, hi] =>
     if !axisOk (pF mn) (pF mx) (pF dx) then (s, "ValueError") else
     let ax := mkAxis truncF (pF mn) (pF mx) (pF dx)
